@@ -5,6 +5,7 @@ import VlsModel.Drv.Common
 Line-protocol driver for the payments model (property C06).
 
   init <nch> <max_routing_fee_msat> <max_feerate_percentage> <cltv_delta> <velocity limit_msat> h|d|u
+       <feerate_per_kw> <htlc_timeout_tx_weight> <htlc_success_tx_weight>     (trim thresholds of the commitments)
   keysend|invoice … neg                           the approver declines (NegativeApprover)
   keysend <h> <amount_msat> <now>                 answers: true | false (velocity) | err | panic
   invoice <h> <amount_msat> <now> <expiry> <tag>  a BOLT-11 invoice issued at <now>
@@ -80,12 +81,13 @@ def approve (s : St) (h : Hash) (inv : Invoice) (now : Nat) : St × String :=
 
 def step (s : St) (toks : List String) : St × String :=
   match toks with
-  | ["init", nch, mf, pct, cd, vl, vt] =>
-    match nat? nch, nat? mf, nat? pct, nat? cd, nat? vl, itype? vt with
-    | some nch, some mf, some pct, some cd, some vl, some vt =>
+  | ["init", nch, mf, pct, cd, vl, vt, fr, wt, ws] =>
+    match nat? nch, nat? mf, nat? pct, nat? cd, nat? vl, itype? vt, nat? fr, nat? wt, nat? ws with
+    | some nch, some mf, some pct, some cd, some vl, some vt, some fr, some wt, some ws =>
       let n := Node.init nch ⟨mf, pct, cd⟩ ⟨vl, vt⟩
+        ⟨dustLimit Gen.Payments.minDustLimit fr wt, dustLimit Gen.Payments.minDustLimit fr ws⟩
       (⟨n, false⟩, "ok " ++ digest n)
-    | _, _, _, _, _, _ => (s, "bad-op")
+    | _, _, _, _, _, _, _, _, _ => (s, "bad-op")
   | _ =>
   if s.dead then (s, "dead") else
   match toks with
